@@ -604,13 +604,16 @@ inductive Op where
   | replayEnter (inst d : Nat)
   | replayTransition (inst d : Nat)
   | attachLogger (inst : Nat) (on : Bool)
+  | replayFrom (inst src : Nat)        -- replica.replayTransition(authority.previousTransition().destination)
+  | replayEnterFrom (inst src : Nat)   -- replica.replayEnter(authority's redirect destination, or 0)
   deriving DecidableEq, Repr
 
 def Op.inst : Op → Nat
   | .construct i _ | .destroy i | .copy i _ | .enter i | .exit i | .update i | .react i | .query i
   | .changeTo i _ | .changeWith i _ _ | .immediateChangeTo i _ | .immediateChangeWith i _ _
   | .succeed i _ | .fail i _ | .planAppend i _ _ _ | .planClear i | .planRemove i _ | .save i
-  | .load i _ | .replayEnter i _ | .replayTransition i _ | .attachLogger i _ => i
+  | .load i _ | .replayEnter i _ | .replayTransition i _ | .attachLogger i _
+  | .replayFrom i _ | .replayEnterFrom i _ => i
 
 def Op.name : Op → String
   | .construct .. => "construct" | .destroy .. => "destroy" | .copy .. => "copy" | .enter .. => "enter"
@@ -620,6 +623,7 @@ def Op.name : Op → String
   | .planAppend .. => "planAppend" | .planClear .. => "planClear" | .planRemove .. => "planRemove"
   | .save .. => "save" | .load .. => "load" | .replayEnter .. => "replayEnter"
   | .replayTransition .. => "replayTransition" | .attachLogger .. => "attachLogger"
+  | .replayFrom .. => "replayTransition" | .replayEnterFrom .. => "replayEnter"
 
 /-- the instances that exist (slot → core); a destroyed / never constructed slot is `none` -/
 abbrev World := List (Option Core)
@@ -699,6 +703,8 @@ def step (cfg : Cfg) (beh : Beh) (w : World) (opIdx : Nat) (op : Op) : World × 
       else rej
   | .attachLogger _ on, some c =>
       if cfg.logging then onCore cfg w i opIdx op.name c (modifyCore (fun c => { c with logger := on })) else rej
+  | .replayFrom .., some _ => rej          -- resolved by `stepAll`
+  | .replayEnterFrom .., some _ => rej     -- resolved by `stepAll`
 
 /-- copy construction needs the source instance: handled before `step` -/
 def stepAll (cfg : Cfg) (beh : Beh) (w : World) (opIdx : Nat) (op : Op) : World × List Ev :=
@@ -707,6 +713,14 @@ def stepAll (cfg : Cfg) (beh : Beh) (w : World) (opIdx : Nat) (op : Op) : World 
     match w.get i, w.get src with
     | none, some sc => (w.put i (some sc), [.api i opIdx "copy" (apiObs cfg sc)])
     | _, _ => (w, [.rejected i opIdx "copy"])
+  | .replayFrom i src =>
+    match w.get src with
+    | some sc => step cfg beh w opIdx (.replayTransition i (if cfg.history then sc.prev.canon.dest else 255))
+    | none => (w, [.rejected i opIdx "replayTransition"])
+  | .replayEnterFrom i src =>
+    match w.get src with
+    | some sc => step cfg beh w opIdx (.replayEnter i (if cfg.history && sc.prev.valid then sc.prev.dest else 0))
+    | none => (w, [.rejected i opIdx "replayEnter"])
   | _ => step cfg beh w opIdx op
 
 def runFrom (cfg : Cfg) (beh : Beh) : World → Nat → List Op → World × List Ev
